@@ -512,7 +512,8 @@ func GetDisplayStyle(node *html.Node) string {
 	style := dom.GetAttribute(node, "style")
 	parts := rxDisplay.FindStringSubmatch(style)
 	if len(parts) >= 2 {
-		return parts[1]
+		// CSS keywords are case-insensitive ("display: NONE" hides the element too)
+		return strings.ToLower(parts[1])
 	}
 
 	// Use default display
